@@ -305,7 +305,30 @@ func runC06Inval(c Case) (res obs.Result) {
 					return
 				default:
 				}
-				switch rr.Intn(4) {
+				op := rr.Intn(5)
+				if op == 4 && c.Mux >= 0 {
+					// a multiplexed client routes MGET by its last key: the same key may then be cached on two
+					// connections, each with its own invalidation stream; the per-connection statement of C06
+					// is only observable per key on a single connection
+					op = 0
+				}
+				switch op {
+				case 4:
+					// DoCache on MGET: per-key entries shared with GET, partial hits refilled positionally
+					n := rr.Range(1, 4)
+					var ks []string
+					for j := 0; j < n; j++ {
+						ks = append(ks, gen.Pick(rr, keys))
+					}
+					t := tick()
+					arr, e := A.DoCache(ctx, A.B().Mget().Key(ks...).Cache(), time.Hour).ToArray()
+					if e != nil || len(arr) != len(ks) {
+						local = append(local, readRec{start: t, key: ks[0], op: "mget", err: fmt.Sprintf("MGET: %v, %d elements for %d keys", e, len(arr), len(ks))})
+						break
+					}
+					for j, m := range arr {
+						local = append(local, recOf(t, ks[j], "mget", m, nil))
+					}
 				case 0, 1:
 					k := gen.Pick(rr, keys)
 					t := tick()
@@ -722,9 +745,23 @@ func runC09(c Case) (res obs.Result) {
 		defer wg.Done()
 		mode := 0
 		if c.Mode == "mixed" {
-			mode = i % 3
+			mode = i % 4
+			if mode == 3 && c.Mux >= 0 {
+				mode = 0 // MGET may travel on another connection (routed by its last key): not "one connection"
+			}
 		}
 		switch mode {
+		case 3:
+			arr, e := A.DoCache(ctx, A.B().Mget().Key("other", key).Cache(), time.Hour).ToArray()
+			if e != nil || len(arr) != 2 {
+				if e == nil {
+					e = fmt.Errorf("MGET returned %d elements", len(arr))
+				}
+				outs[i] = outc{"", e, false}
+			} else {
+				v, e2 := arr[1].ToString()
+				outs[i] = outc{v, e2, arr[1].IsCacheHit()}
+			}
 		case 0:
 			r := A.DoCache(ctx, cacheable(A, key, c.Static), time.Hour)
 			v, e := r.ToString()
